@@ -161,14 +161,18 @@ def run(rep):
         stats = runs.gen_corpus("genbad", root, rep.tier, rep.seed, extra=["-repo", common.REPO])
         rep.cov["corpus"] = stats
         cases = json.load(open(os.path.join(root, "cases.json")))
-        results = runs.par(lambda c: runs.goderive(binp, root, ["./" + c["dir"]], timeout=TIMEOUT), cases)
+        def args_of(c):
+            sub = lambda a: a.replace("PKGDIR", c["dir"])
+            return [sub(a) for a in c.get("preargs") or []] + ["./" + c["dir"]] + [sub(a) for a in c.get("postargs") or []]
+
+        results = runs.par(lambda c: runs.goderive(binp, root, args_of(c), timeout=TIMEOUT), cases)
         # a timeout under machine load is not a hang: re-run those cases one at a time with a long limit
         for i, (c, r) in enumerate(zip(cases, results)):
             if r["timeout"]:
                 for f in ("derived.gen.go",):
                     if f not in c["files"] and os.path.exists(os.path.join(root, c["dir"], f)):
                         os.remove(os.path.join(root, c["dir"], f))
-                results[i] = runs.goderive(binp, root, ["./" + c["dir"]], timeout=3 * TIMEOUT)
+                results[i] = runs.goderive(binp, root, args_of(c), timeout=3 * TIMEOUT)
         ok_dirs = [c["dir"] for c, r in zip(cases, results) if r["rc"] == 0 and not r["timeout"]]
         tc = typecheck(root, ok_dirs)
         classes, other = {}, {}
@@ -187,7 +191,7 @@ def run(rep):
                 tgt = other if cid.startswith("other-property/") else classes
                 e = tgt.setdefault(cid, {"what": what, "count": 0, "found": True, "replay": {
                     "case": c["dir"], "family": c["family"], "plugin": c["plugin"], "input": c["what"],
-                    "files": runs.read_tree(os.path.join(root, c["dir"])), "cmd": "goderive ./" + c["dir"],
+                    "files": runs.read_tree(os.path.join(root, c["dir"])), "cmd": "goderive " + " ".join(args_of(c)), "args": args_of(c),
                     "rc": r["rc"], "timeout": r["timeout"], "stderr": r["out"][-1500:], "observed": what}})
                 e["count"] += 1
             if len(rep.cov["samples"]) < 6 and len(distinct) % 251 == 1:
@@ -215,8 +219,9 @@ def replay(rep, path):
         files = dict(r.get("files", {}))
         files.pop("derived.gen.go", None) if r.get("family") != "broken" else None
         runs.write_tree(os.path.join(sd, case), files)
-        out = runs.goderive(binp, sd, ["./" + case], timeout=TIMEOUT)
-        print("replay: %s (%s)\n  goderive ./%s -> rc=%s timeout=%s\n%s" % (r.get("input"), r.get("class"), case, out["rc"], out["timeout"], out["out"][-1500:]))
+        args = r.get("args") or ["./" + case]
+        out = runs.goderive(binp, sd, args, timeout=TIMEOUT)
+        print("replay: %s (%s)\n  goderive %s -> rc=%s timeout=%s\n%s" % (r.get("input"), r.get("class"), " ".join(args), out["rc"], out["timeout"], out["out"][-1500:]))
         if out["rc"] == 0 and not out["timeout"]:
             tc = typecheck(sd, [case]).get(case, {})
             print("  type-check oracle: parse=%s types=%s" % (tc.get("parse"), tc.get("types")))
